@@ -357,7 +357,14 @@ def run(plan, ch, want_log=False):
         job = J.build_job(jp)
     env = J.build_env(cp)
     b = ModelBridge(ch, job, jp, env, knobs)
-    pre = precompute(job)
+    from sim.kernel import SpinDetected, wall_alarm
+    try:
+        with wall_alarm(WALL_SPIN_S):
+            pre = precompute(job)
+    except SpinDetected:
+        return dict(harness=NAME, viol=[dict(prop="C03", cls="spin", detail="scheduler.graph.precompute did not return", sig={})] +
+                    ([dict(prop="C10", cls="lowered_job_can_not_be_scheduled", detail="precompute did not return", sig={})] if ginfo is not None else []),
+                    probes={}, fired={}, digest="precompute-spin", steps=0, simtime=0.0, stats={}, nontrivial={}, end="spin/precompute")
     cnt = {"n": 0, "calls": -1}
     orig = impl.has_computable
 
